@@ -6,6 +6,7 @@ controller's event handling, both as repaired (4703615, 8aac5e2, 48e428b). Tied 
 differential run through the real handlers into the real controller with a recording builder.
 -/
 import SamVerif.Proofs.Conf
+import SamVerif.Gen.Conf
 namespace SamVerif.Props.C08
 open SamVerif.Conf SamVerif.Proofs.Conf
 
@@ -120,6 +121,85 @@ example : ((run Sys.init [.depAdd 1, .cfg 1 ⟨1, false⟩, .eps 1 [1] [], .cfg 
 example : ((run Sys.init [.depAdd 1, .cfg 1 ⟨1, true⟩, .eps 1 [] [9], .eps 1 [1] [], .consume 9]).procs 1).map
     (fun p => (p.cfg.id, p.hosts)) = some (1, [1]) := by decide
 
+/-- **The code the model was written against.** The statements of the modelled functions,
+regenerated from the current source on every run, are the ones the model was written against;
+any edit to one of them makes this obligation fail and starts a search for a failing input. -/
+theorem code_matches_model :
+    Gen.Conf.handleDependencyUpdate =
+      ["c.Lock()",
+      "defer c.Unlock()",
+      "for _, svc := range added { sw, ok := c.sws[svc.Name] if ok { continue } sw = &serviceWrapper{Service: svc} c.sws[svc.Name] = sw }",
+      "for _, svc := range removed { sw, ok := c.sws[svc.Name] if !ok { continue } delete(c.sws, svc.Name) c.emitSvcRemoveEvent(sw) }"] ∧
+    Gen.Conf.handleSvcConfigUpdate =
+      ["c.Lock()",
+      "defer c.Unlock()",
+      "sw, ok := c.sws[svcName]",
+      "if !ok { return }",
+      "oldCfg := sw.Config",
+      "sw.Config = newCfg",
+      "if sw.Endpoints == nil { return }",
+      "if oldCfg != nil { c.emitSvcConfigEvent(svcName, newCfg) }",
+      "if oldCfg == nil || oldCfg.Validate() != nil { c.emitSvcAddEvent(sw) }"] ∧
+    Gen.Conf.handleSvcEndpointUpdate =
+      ["c.Lock()",
+      "defer c.Unlock()",
+      "if len(added) == 0 && len(removed) == 0 { return }",
+      "sw, ok := c.sws[svcName]",
+      "if !ok { return }",
+      "oldEndpoints := sw.Endpoints",
+      "validRemoved := make([]*service.Endpoint, 0, len(removed))",
+      "for _, endpoint := range removed { i, ok := isContainEndpoint(sw.Endpoints, endpoint) if !ok { continue } sw.Endpoints = append(sw.Endpoints[:i], sw.Endpoints[i+1:]...) validRemoved = append(validRemoved, endpoint) }",
+      "validAdded := make([]*service.Endpoint, 0, len(added))",
+      "for _, endpoint := range added { _, ok := isContainEndpoint(sw.Endpoints, endpoint) if ok { continue } sw.Endpoints = append(sw.Endpoints, endpoint) validAdded = append(validAdded, endpoint) }",
+      "if sw.Config == nil || sw.Endpoints == nil { return }",
+      "switch oldEndpoints { case nil: c.emitSvcAddEvent(sw) default: c.emitSvcEndpointEvent(svcName, validAdded, validRemoved) }"] ∧
+    Gen.Conf.isContainEndpoint =
+      ["for i := 0; i < len(endpoints); i++ { if !endpoints[i].Address.Equal(endpoint.Address) { continue } return i, true }",
+      "return 0, false"] ∧
+    Gen.Conf.emitSvcAddEvent =
+      ["evt := &SvcAddEvent{ Name: sw.Service.Name, Config: sw.Config, Endpoints: sw.Endpoints, }",
+      "c.evtCh <- evt"] ∧
+    Gen.Conf.emitSvcEndpointEvent =
+      ["if len(added) == 0 && len(removed) == 0 { return }",
+      "evt := &SvcEndpointEvent{ Name: svcName, Added: added, Removed: removed, }",
+      "c.evtCh <- evt"] ∧
+    Gen.Conf.handleEvent =
+      ["switch evt := evt.(type) { case *config.SvcAddEvent: c.handleSvcAdd(evt.Name, evt.Config, evt.Endpoints) case *config.SvcRemoveEvent: c.handleSvcDel(evt.Name) case *config.SvcConfigEvent: c.handleSvcConfigUpdate(evt.Name, evt.Config) case *config.SvcEndpointEvent: c.handleSvcEndpointsRemove(evt.Name, evt.Removed) c.handleSvcEndpointsAdd(evt.Name, evt.Added) default: logger.Warnf(\"unkown event: %v\", evt) }"] ∧
+    Gen.Conf.handleSvcAdd =
+      ["if _, ok := c.getProc(svcName); ok { return }",
+      "c.tryEnsureProc(svcName, cfg, endpointsToHosts(endpoints))"] ∧
+    Gen.Conf.handleSvcDel =
+      ["if p, ok := c.getProc(svcName); ok { p.Stop() c.removeProc(p) }"] ∧
+    Gen.Conf.tryEnsureProc =
+      ["if svcName == \"\" { logger.Debugf(\"empty service name\") return }",
+      "if err := cfg.Validate(); cfg == nil || err != nil { logger.Debugf(\"invalid config\") return }",
+      "proc, err := newProc(svcName, cfg, hosts)",
+      "if err != nil { logger.Warnf(\"Create processor %s failed: %v\", svcName, err) return }",
+      "if err := proc.Start(); err != nil { logger.Warnf(\"Start processor %s failed: %v\", svcName, err) return }",
+      "c.addProc(proc)",
+      "return proc"] ∧
+    Gen.Conf.handleSvcEndpointsAdd =
+      ["if len(endpoints) == 0 { return }",
+      "procName := svcName",
+      "p, ok := c.getProc(procName)",
+      "if !ok { logger.Warnf(\"failed to get proc of service when add endpoints: %s\", svcName) return }",
+      "hosts := endpointsToHosts(endpoints)",
+      "p.OnSvcHostAdd(hosts)",
+      "logger.Infof(\"Add hosts %v to processor %s\", hosts, procName)"] ∧
+    Gen.Conf.handleSvcEndpointsRemove =
+      ["if len(endpoints) == 0 { return }",
+      "procName := svcName",
+      "p, ok := c.getProc(procName)",
+      "if !ok { logger.Warnf(\"failed to get proc of service when remove endpoints: %s\", svcName) return }",
+      "hosts := endpointsToHosts(endpoints)",
+      "p.OnSvcHostRemove(hosts)",
+      "logger.Infof(\"Remove hosts %v from processor %s\", hosts, procName)"] ∧
+    Gen.Conf.ctlHandleSvcConfigUpdate =
+      ["proc, ok := c.getProc(svcName)",
+      "if !ok { logger.Warnf(\"failed to get proc of service when update config: %s\", svcName) return }",
+      "if err := proc.OnSvcConfigUpdate(newCfg); err != nil { logger.Warnf(\"failed to update svc config: %v\", err) }"] := by
+  refine ⟨rfl, rfl, rfl, rfl, rfl, rfl, rfl, rfl, rfl, rfl, rfl, rfl, rfl⟩
+
 end SamVerif.Props.C08
 
 #print axioms SamVerif.Props.C08.inv_run
@@ -128,3 +208,4 @@ end SamVerif.Props.C08
 #print axioms SamVerif.Props.C08.latest_invalid_partial
 #print axioms SamVerif.Props.C08.latest_invalid_counterexample
 #print axioms SamVerif.Props.C08.old_order_counterexample
+#print axioms SamVerif.Props.C08.code_matches_model
